@@ -169,7 +169,7 @@ PROPS["C13"] = dict(
     pkg="./props/c13_delays",
     tests=[REGRESS(), T("TestDelaysBlackBox", (8, 1500), (8, 40000)), T("TestDelaysProbe", (4, 20000), (8, 400000))],
     fuzz=[dict(name="FuzzDelaysProbe", time="120s")],
-    rule="rapid-generated delay configurations: {none, fixed, backoff with factor 1..10 (WithBackoff and WithBackoffFactor), random range, delay function returning a value / 0 / -1} x {no jitter, jitter duration, jitter factor} x {no max duration, max duration}, magnitudes log-uniform from 1 us to 10 h, 1..12 consecutive failures; black box: OnRetryScheduled delays and monotonic timestamps, really waited for at sub-millisecond magnitudes, first delay only (context cancelled from inside the listener) above; probe: consecutive delays of one retry executor on a virtual elapsed time at any magnitude; non-trivial = jitter or clamp active, or at least 3 consecutive backoff delays, or a base delay of at least 1 s; distinct = the configuration",
+    rule="rapid-generated delay configurations: {none, fixed, backoff with factor 1..10 (WithBackoff and WithBackoffFactor), random range, delay function returning a value / 0 / -1} x {no jitter, jitter duration, jitter factor} x {no max duration, max duration}, optionally preceded by builder calls the documentation says are replaced (a fixed/random/backoff delay before a backoff or random delay, the other jitter kind before the jitter), magnitudes log-uniform from 1 us to 10 h, 1..12 consecutive failures; black box: OnRetryScheduled delays and monotonic timestamps, really waited for at sub-millisecond magnitudes, first delay only (context cancelled from inside the listener) above; probe: consecutive delays of one retry executor on a virtual elapsed time at any magnitude; non-trivial = jitter or clamp active, or at least 3 consecutive backoff delays, or a base delay of at least 1 s; distinct = the configuration",
     assumptions=["backoff and jitter-factor bounds carry a relative tolerance of 1e-5 per step (float32 arithmetic in the implementation, DESIGN.md L6); absolute bounds (>= 0, <= maxDelay, range ends, remaining max duration) are exact",
                  "on the black-box path the clamp to the remaining max duration is bounded on both sides by elapsed times sampled before and after the policy's own reading",
                  "consecutive delays at magnitudes that cannot be waited for are read through retrypolicy.VerifDelayProbe (build tag verif)"],
@@ -202,7 +202,7 @@ PROPS["C19"] = dict(
     pkg="./props/c19_leaks",
     tests=[REGRESS(), T("TestLeaks", (8, 150), (16, 3000)), T("TestKnownFindingD12", (1, 0), (1, 0))],
     prefer_json_replay=True,
-    rule="rapid-generated scenarios, each repeated 5..40 times in a row: core executions through stacks of {retry with and without backoff delays, firing and never-firing timeouts, real hedging with default and custom cancel conditions, 1 h hedge, fallback, 1 h bulkhead and limiter waits} run sync / async / async without ever reading the result, with functions that last 0..600 us or until cancelled, ended by success, failure, timeout, context cancellation or ExecutionResult.Cancel; HTTP calls through a private transport (retried statuses, hedged losers, merged request/executor contexts, bodies read or not); gRPC interceptor calls with merged contexts; composition scenarios of the C01 generator; after everything returned and idle connections were closed, and while the caller's contexts are still alive, a goroutine dump is polled for up to 30 s: no goroutine may keep a frame of the module or of an HTTP client connection, and the goroutine count may not have grown; non-trivial = the scenario started a policy goroutine or timer (hedge, timeout, async runner, delay, merged context, retried response); distinct = the scenario",
+    rule="rapid-generated scenarios, each repeated 5..40 times in a row: core executions through stacks of {retry with and without backoff delays, firing and never-firing timeouts, real hedging with default and custom cancel conditions, 1 h hedge, fallback, 1 h bulkhead and limiter waits} run sync / async / async without ever reading the result, with functions that last 0..600 us or until cancelled, ended by success, failure, timeout, context cancellation or ExecutionResult.Cancel; HTTP calls through a private transport (retried statuses incl. outages where every attempt gets the same 429/500/503, hedged losers with default and custom cancel conditions whose answers arrive together (server-side barrier), retries rejected by an inner breaker or rate limiter, request bodies whose rewind fails, merged request/executor contexts, bodies read or not); gRPC interceptor calls with merged contexts; composition scenarios of the C01 generator; after everything returned and idle connections were closed, and while the caller's contexts are still alive, a goroutine dump is polled for up to 30 s: no goroutine may keep a frame of the module or of an HTTP client connection, and the goroutine count may not have grown; non-trivial = the scenario started a policy goroutine or timer (hedge, timeout, async runner, delay, merged context, retried response); distinct = the scenario",
     assumptions=["a timer that is left armed but whose firing has no observable effect is invisible to this oracle",
                  "the caller owns (and closes) the response it is handed, including the one carried by ExceededError",
                  "scenarios run one after the other within a process, so leftovers are attributable",
